@@ -224,8 +224,13 @@ PassRel(P, A, Q, P2, A2, CL, now, st0, countAll) ==
         /\ Cardinality(Sur) <= surplus
         /\ Cardinality(roomEv \ Sur) <= Cardinality(New)
         /\ roomEv \ Sur # {} => Cardinality(P2set) >= MaxConn
-        /\ \A r \in newly : A2[r] \in New =>
-              \A c \in Pset \ Sur : (corg[c] = OriginOf[r] /\ Av(c) /\ ~Exp(c) /\ ~Cl(c))
+        \* (C09 speaks of a SEQUENTIAL request: when one request is waiting, every healthy
+        \*  connection of the pre-pool counts; when several are waiting, making room for an
+        \*  earlier one may take the idle connection a later one could have used - only the
+        \*  connections that STAY in the pool count then)
+        /\ LET Cand == IF Cardinality({r \in SeqToSet(Q) : A[r] = None}) = 1 THEN Pset \ Sur ELSE Pset \cap P2set IN
+           \A r \in newly : A2[r] \in New =>
+              \A c \in Cand : (corg[c] = OriginOf[r] /\ Av(c) /\ ~Exp(c) /\ ~Cl(c))
                                         => \E x \in Req : x # r /\ A2[x] = c
   \* whoever is left waiting cannot be served                            (C07)
   /\ \A r \in left :
